@@ -44,7 +44,10 @@ def run_harness(ck, prop, hp, n, seed, tier, rundir, replay=None, extra_args=())
         cmd += ["-replay", replay]
     cmd += list(extra_args)
     env = dict(ck.ENV, VERIF_BUILD=ck.BUILD, VERIF_RUNDIR=rundir, VERIF_REPO=ck.REPO)
-    rc, o = ck.sh(cmd, timeout=3000, env=env, cwd=rundir)
+    try:
+        rc, o = ck.sh(cmd, timeout=(420 if tier == "quick" else 3000), env=env, cwd=rundir)
+    except Exception as e:  # noqa  (a stage that hangs is reported, not waited for)
+        rc, o = 124, "harness stage %s did not finish in time: %s" % (hp, str(e)[-300:])
     cases = []
     if os.path.exists(out):
         for line in open(out):
